@@ -1,6 +1,6 @@
 (* C06  Removed sources are gone for good; their tokens die; everything is released once. *)
 From CV Require Import Base Consts Token PostAction Env Loop.
-From CVP Require Import Loop_frames Seq_lemmas Env_lemmas C06_proofs C14_life C14_life2 C06_release.
+From CVP Require Import Loop_frames Seq_lemmas Env_lemmas C06_proofs C14_life C14_life2 C06_release C06_handles.
 Open Scope N_scope.
 
 (* remove(): right afterwards the handle's token no longer resolves to a source *)
@@ -48,6 +48,27 @@ Theorem C06_token_dead_forever : forall scr bscr cmds1 cmds2 t,
 Proof. exact token_dead_forever_run. Qed.
 Theorem C06_dead_token_dead_handle : forall s h t, toks s h = Some t -> lc_lookup s t = None -> lookup s h = None.
 Proof. exact lookup_none_of_dead. Qed.
+
+(* NEVER A LATER SOURCE, whole histories. In every state of every scenario each handle's token is a token of its slot's current
+   or a past generation, and wherever it still resolves it finds the handle's own object or an emptied slot (`HOBJ`). So the
+   lookup behind enable / disable / update / remove of ANY handle ever issued - stale or not - can only yield that handle's own
+   source: it can never act on the source that re-used the slot. (`TKS`: slots move forward and each handle's token is either
+   unchanged or freshly consistent; proved for every function of the model like `sstep`.) *)
+Theorem C06_handle_never_resolves_to_another_source : forall scr bscr cmds h t et o,
+  gens_small (slots (run scr bscr cmds)) -> lookup (run scr bscr cmds) h = Some (t, et, o) -> o = h.
+Proof. exact handle_resolves_only_to_own_object. Qed.
+Theorem C06_handles_consistent_in_every_reachable_state : forall scr bscr cmds,
+  gens_small (slots (run scr bscr cmds)) -> HOBJ (run scr bscr cmds).
+Proof. exact HOBJ_run. Qed.
+(* met by a real history: handle 1 removed, handle 2 inserted into the re-used slot 0: handle 1's token (0,0) no longer resolves,
+   handle 2's token (0,1) resolves to object 2 *)
+Example C06_handles_nonvacuous :
+  let g := mkGen 10 (mkInt true false) Level None false in
+  let s := run (fun _ => []) (fun _ => []) [CAct (ANewPing 1 10); CAct (AInsert 1 (SPing g)); CAct (ARemove 1);
+             CAct (ANewPing 2 11); CAct (AInsert 2 (SPing (mkGen 11 (mkInt true false) Level None false)))] in
+  toks s 1 = Some (mkTok 0 0 0) /\ toks s 2 = Some (mkTok 0 1 0) /\ lookup s 1 = None /\
+  lookup s 2 = Some (mkTok 0 1 0, mkTok 0 1 0, 2).
+Proof. vm_compute. repeat split. Qed.
 
 (* RELEASE, whole histories. `objs s o = Some ob` is "the source and callback of object o have not been dropped yet" (dropping
    is `drop_obj`, which prints the DROP line the correspondence check compares with the implementation's drop counters);
